@@ -50,6 +50,13 @@ def obligations(tier):
                 obs.append(Ob(f"L2.incr_greater[{pat}; bid 1998, --tag {nt}, major {fm}, other flags and tags symbolic]", "c20.py",
                               "incr_greater", {"pattern": pat, "bid_zeros": 0, "bid": [1998, 1998], "fix": {"newtag_i": nt, "f_major": fm}},
                               timeout=t))
+    for pat, field, part, rng in (("v{year}d{doy}.{bid}{release}", "doy", "doy", [1, 366]),
+                                  ("v{year}w{iso_week}.{bid}{release}", "iso_week", "iso_week", [0, 53]),
+                                  ("v{year}w{us_week}.{bid}{release}", "us_week", "us_week", [0, 53]),
+                                  ("v{year}.{quarter}.{bid}{release}", "quarter", "quarter", [1, 4]),
+                                  ("v{year}{month}{dom}.{bid}", "dom", "dom", [1, 31])):
+        extra = {"pattern": pat, "cfield": field, "cpart": part, "crange": rng}
+        obs.append(Ob(f"L1.roundtrip_calendar_part[{pat}]", "c20.py", "roundtrip_calendar_part", extra, timeout=t))
     obs.append(Ob("L2.legacy_gate[{semver}]", "c20.py", "legacy_gate", {"hi1": 9 if tier == "quick" else 99}, timeout=t))
     obs.append(Ob("L3.dispatch_consistent", "c20.py", "dispatch_consistent", {}, timeout=t))
     obs.append(Ob("L3.tag_num_refused", "c20.py", "tag_num_refused", {}, timeout=t))
